@@ -27,7 +27,14 @@ def rand_val(rng, f):
     if f == "?":
         return rng.random() < 0.5
     if len(f) > 1:
-        return tuple(rand_val(rng, c) for c in f)
+        import re
+        vals = []
+        for cnt, ch in re.findall(r"(\d*)([A-Za-z?])", f):
+            if ch == "s":
+                vals.append(bytes(rng.randrange(1, 256) for _ in range(int(cnt or 1))))
+            else:
+                vals += [rand_val(rng, ch) for _ in range(int(cnt or 1))]
+        return tuple(vals) if len(vals) > 1 else vals[0]
     return exprs.rand_value(rng, ALIAS.get(f, f))
 
 
@@ -43,7 +50,7 @@ class C29(Check):
 
     def make_case(self, rng):
         from . import c29_devs
-        devs = [rng.choice("ABCD") for _ in range(rng.randint(1, 3))]
+        devs = [rng.choice("ABCDEE") for _ in range(rng.randint(1, 4))]
         case = {"devs": devs, "parent": [], "child": []}
         for i, d in enumerate(devs):
             for n, f in c29_devs.variables(c29_devs.CLASSES[d]):
@@ -62,7 +69,9 @@ class C29(Check):
         return [self.make_case(self.rng) for _ in range(10 if self.tier == "quick" else 60)]
 
     def corpus(self):
-        return [{"devs": ["D", "B"], "parent": [[0, "d_l", -888], [0, "d_L", 2 ** 63 + 5], [0, "d_Bq", (200, -7)], [1, "b_I", 12345]],
+        return [{"devs": ["E", "E", "A"], "parent": [[0, "e_3B", (1, 2, 3)], [1, "e_3B", (4, 5, 6)], [0, "e_5s", b"hello"], [1, "e_3H", (7, 8, 9)]],
+                 "child": [[0, "e_3H", (65535, 1, 2)], [1, "e_5s", b"world"], [2, "a_B", 9]]},
+                {"devs": ["D", "B"], "parent": [[0, "d_l", -888], [0, "d_L", 2 ** 63 + 5], [0, "d_Bq", (200, -7)], [1, "b_I", 12345]],
                  "child": [[0, "d_l", 777], [0, "d_h", -2], [0, "d_f", 1.5], [0, "d_I", 4000000000], [0, "d_b", -3], [1, "b_Q", 2 ** 64 - 1]]},
                 {"devs": ["A", "C", "A"], "parent": [[0, "a_q", -5], [1, "a_H", 2 ** 40], [2, "a_x", 0.29]], "child": [[0, "a_B", 200], [1, "c_I", 7], [2, "a_q", 11]]}]
 
@@ -167,8 +176,12 @@ class C29(Check):
         def same(a, b, f):
             if isinstance(b, list):
                 b = tuple(b)
+            if isinstance(a, tuple) and isinstance(b, tuple):
+                a, b = tuple(a), tuple(tuple(y) if isinstance(y, list) else y for y in b)
             if b == 0 and isinstance(a, tuple):
                 b = tuple(0 for _ in a)             # never written: all members zero
+            if b == 0 and isinstance(a, bytes):
+                b = bytes(len(a))
             return abs(a - b) < 1e-9 if f == "x" else a == b
         for (i, n, f), got in zip(allv, o["child_first"]):
             if not same(got, exp[i, n], f):
@@ -197,7 +210,7 @@ class C29(Check):
         return not isinstance(o, Err)
 
     def rule(self):
-        return ("1-3 device instances out of four classes (formats B H I Q b h i q x l L N f d ? and the padded multi-member formats Bq and HHI, one class derived from another and redefining a variable with a larger "
+        return ("1-3 device instances out of four classes (formats B H I Q b h i q x l L N f d ? the padded multi-member formats Bq and HHI and formats of odd sizes 3B 3H 5s =HB, one class derived from another and redefining a variable with a larger "
                 "format); 40% of the variables written in the parent, 40% in a spawned child process that received the pickled ProcessSyncGroup; the child "
                 "reads everything before and after its writes, the parent reads everything back; 15% of the variables are written on both sides; finally "
                 "the parent assigns its first values again and a second spawned child and the parent read everything")
@@ -206,7 +219,22 @@ class C29(Check):
         return {"cases": len(cases), "devices": sum(len(c["devs"]) for c in cases), "errors": sum(isinstance(o, Err) for o in observed)}
 
     def describe(self, case):
-        return {k: v for k, v in case.items() if not k.startswith("_")}
+        def enc(x):
+            if isinstance(x, (bytes, bytearray)):
+                return {"__bytes__": bytes(x).hex()}
+            if isinstance(x, (list, tuple)):
+                return [enc(y) for y in x]
+            return x
+        return {k: enc(v) for k, v in case.items() if not k.startswith("_")}
+
+    def case_from_json(self, w):
+        def dec(x):
+            if isinstance(x, dict) and "__bytes__" in x:
+                return bytes.fromhex(x["__bytes__"])
+            if isinstance(x, list):
+                return [dec(y) for y in x]
+            return x
+        return {k: dec(v) for k, v in w.items()}
 
 
 CHECK = C29
